@@ -341,6 +341,7 @@ def parse_result(line):
 
 NCOUNT = 16        # 12 per-(role, function) counters, obj_as_index, index_as_obj, foreign, adapter_bad
 MAX_CRASHES = 4     # per batch: every crash / hang costs a process restart (and up to `wd` seconds)
+CRASH_BUDGET = {"left": 10}   # per run: once it is spent (the verdict is there many times over) a batch stops at its first crash
 
 
 def run_cases(ctx, exe, ds, cases):
@@ -351,7 +352,7 @@ def run_cases(ctx, exe, ds, cases):
     guard = 0
     while start < len(cases):
         guard += 1
-        if guard > MAX_CRASHES:
+        if guard > (MAX_CRASHES if CRASH_BUDGET["left"] > 0 else 1):
             for i in range(start, len(cases)):
                 if results[i] is None:
                     results[i] = {"kind": "SKIPPED"}
@@ -392,6 +393,7 @@ def run_cases(ctx, exe, ds, cases):
         if results[bad] is None:
             what = r.sanitizer or ("timeout" if r.timed_out else "exit code %s: %s" % (r.rc, r.err[-300:]))
             results[bad] = {"kind": "CRASH", "what": str(what)[:600]}
+        CRASH_BUDGET["left"] -= 1
         start = bad + 1
         for i in range(start):
             if results[i] is None:
@@ -413,6 +415,8 @@ def probe_adapters(ctx, exe, ds, stats):
     precomputed ones on the asymmetric value tables (the answer must be the table entry for the pair as given), the
     eigen ones on the data (against hand-written loops when the data are dyadic, operator() against the named member)"""
     exact = ds["kind"] in EXACT_KINDS
+    if CRASH_BUDGET["left"] <= 0:
+        return          # the library already crashed / hung often enough in this run: the verdict is there
     r = ctx.run(exe, data_line(ds) + "ADAPT exact=%d\n" % (1 if exact else 0), timeout=15)
     seen = {}
     for line in r.out.splitlines():
@@ -428,6 +432,7 @@ def probe_adapters(ctx, exe, ds, stats):
             except ValueError:
                 continue
     if "AEND" not in r.out or r.rc != 0 or r.timed_out:
+        CRASH_BUDGET["left"] -= 3
         ctx.violation({"data": ds, "adapt": "*"}, "calling tapkee's callback adapters directly on this data set %s: %s"
                       % ("hangs" if r.timed_out else "crashes / ends early",
                          str(r.sanitizer or r.err[-300:] or r.out[-200:])[:400]))
@@ -806,6 +811,8 @@ def shrink_violations(ctx, exe, needs, limit=3):
             break
         if not (isinstance(case, dict) and "data" in case and "run" in case):
             continue
+        if "'kind': 'CRASH'" in why:
+            continue        # every probe of a hang costs the watchdog time again; the case is small enough as it is
         try:
             best = shrink_dataset(ctx, exe, needs, case["data"], case["run"])
         except Exception:       # shrinking is best effort
